@@ -11,6 +11,8 @@
  *   part C  items [.., +NB*NB)          : cfg_new for one (read_rate, read_burst) pair
  */
 #include "mcx.h"
+/* small ASan quarantine: freed blocks are reused quickly instead of every malloc touching fresh pages (20-40x faster here) */
+const char *__asan_default_options(void) { return "quarantine_size_mb=4:thread_local_quarantine_size_kb=64"; }
 #include <stdio.h>
 #include <stdlib.h>
 #include <string.h>
